@@ -20,9 +20,11 @@ not with ``CRS.__eq__`` (which is code under test); ``result.crs == operand.crs`
 from __future__ import annotations
 
 import collections.abc as cabc
+import copy
 import functools
 import inspect
 import itertools
+import math
 import types
 import typing
 
@@ -62,7 +64,12 @@ CLASSES = {"Geometry": Geometry, "BoundingBox": BoundingBox, "GeoBox": GeoBox}
 # =================================================================================================
 # CRS tags
 # =================================================================================================
-_WKT2 = {c: pyproj.CRS.from_epsg(c).to_wkt() for c in (4326, 3857)}  # WKT2:2019 text from pyproj
+_WKT2 = {c: pyproj.CRS.from_epsg(c).to_wkt() for c in (4326, 3857, 32633)}  # WKT2:2019 text from pyproj
+_JSON = {c: pyproj.CRS.from_epsg(c).to_json_dict() for c in (4326,)}  # PROJJSON
+# "stale id": the WKT2 of EPSG:32633 with its central meridian edited (15 -> 16.5 degrees) while the trailing
+# ID["EPSG",32633] was left in place. It is NOT EPSG:32633 (pyproj: to_epsg() is None, != EPSG:32633).
+_STALE = {32633: _WKT2[32633].replace('PARAMETER["Longitude of natural origin",15', 'PARAMETER["Longitude of natural origin",16.5')}
+assert _STALE[32633] != _WKT2[32633] and _STALE[32633].endswith('ID["EPSG",32633]]')
 TAGS = (
     "none",
     "EPSG:4326", "epsg:4326", "wkt2:4326", "pyproj:4326", "crs:4326",
@@ -77,17 +84,23 @@ PROJ4 = {
     "A": "+proj=laea +lat_0=52 +lon_0=10 +x_0=0 +y_0=0 +datum=WGS84 +units=m +no_defs",
     "B": "+proj=laea +lat_0=-30 +lon_0=140 +x_0=0 +y_0=0 +datum=WGS84 +units=m +no_defs",
 }
-_CUSTOM_REF = {k: pyproj.CRS(v) for k, v in PROJ4.items()}
-_WKT2["A"] = _CUSTOM_REF["A"].to_wkt()
+_CUSTOM_REF = {f"laea{k}": pyproj.CRS(v) for k, v in PROJ4.items()}
+_CUSTOM_REF["stale32633"] = pyproj.CRS.from_user_input(_STALE[32633])
+_WKT2["A"] = _CUSTOM_REF["laeaA"].to_wkt()
 NONEPSG_TAGS = ("proj:A", "proj:A+e", "wkt2:A", "wkt2:A+e", "pyproj:A", "proj:B", "proj:B+e")
-SUB_TAGS = ("none", "EPSG:4326", "wkt2:4326", "wkt2:4326+e") + NONEPSG_TAGS  # alphabet of the non-epsg slice
+# other encodings of one value (int, any-case 'epsg:', PROJJSON dict) and the stale-id WKT, fresh and evaluated
+ENCODING_TAGS = ("int:4326", "Epsg:4326", "json:4326", "EPSG:32633", "stale:32633", "stale:32633+e")
+SUB_TAGS = ("none", "EPSG:4326", "wkt2:4326", "wkt2:4326+e") + NONEPSG_TAGS + ENCODING_TAGS  # the non-epsg slice
+R_TAGS = ("none", "EPSG:4326", "wkt2:4326", "EPSG:3857", "proj:A", "stale:32633")  # reduced alphabet of the add-on slices
 
 
 def tag_class(tag: str):
     """Equivalence class of a tag: EPSG code, 0 for 'no CRS', 'laeaA'/'laeaB' for the custom projections."""
     if tag == "none":
         return 0
-    code = tag.split(":")[1].split("+")[0]
+    sp, code = tag.split("+")[0].split(":")
+    if sp == "stale":
+        return f"stale{code}"
     return int(code) if code.isdigit() else f"laea{code}"
 
 
@@ -101,8 +114,14 @@ def make_tag(tag: str):
         return None
     sp, code = tag.split("+")[0].split(":")
     code = int(code) if code.isdigit() else code
-    if sp in ("EPSG", "epsg"):
+    if sp in ("EPSG", "epsg", "Epsg"):
         return f"{sp}:{code}"
+    if sp == "int":
+        return code
+    if sp == "json":
+        return copy.deepcopy(_JSON[code])
+    if sp == "stale":
+        return _STALE[code]
     if sp == "proj":
         return PROJ4[code]
     if sp == "wkt2":
@@ -134,7 +153,7 @@ def _class_of_str(s):
         return e
     for k, ref in _CUSTOM_REF.items():
         if p == ref:  # pyproj equality of fresh objects, not odc's CRS.__eq__
-            return f"laea{k}"
+            return k
     return -2
 
 
@@ -168,7 +187,15 @@ def relation(tags) -> str:
 # =================================================================================================
 GEOM_KINDS = ("point", "multipoint", "line", "ring", "polygon", "polyhole", "multiline", "multipolygon",
               "collection", "empty")
-_SHIFT = ((0.0, 0.0), (1.0, 0.5), (2.0, 1.0))  # operand position -> shift (dyadic), so operands partly overlap
+# single-part Multi*, repeated consecutive vertices, and operands DERIVED through the library from a parent
+# (rings from .exterior / .interiors, a part from .geoms): they share the parent's CRS object
+GEOM_KINDS2 = ("multipoint1", "multiline1", "multipolygon1", "dup-line", "ext-ring", "int-ring", "geoms-part")
+DERIVED = {  # kind: (parent kind, through the library, the same on the raw shape)
+    "ext-ring": ("polygon", lambda g: g.exterior, lambda s: s.exterior),
+    "int-ring": ("polyhole", lambda g: g.interiors[0], lambda s: s.interiors[0]),
+    "geoms-part": ("multipolygon", lambda g: list(g.geoms)[1], lambda s: s.geoms[1]),
+}
+_SHIFT = ((0.0, 0.0), (1.0, 0.5), (2.0, 1.0), (3.0, 1.5))  # operand position -> shift (dyadic): operands partly overlap
 _RAW: dict = {}
 
 
@@ -185,7 +212,17 @@ def raw_shape(kind: str, pos: int) -> BaseGeometry:
     def B(x0, y0, x1, y1):
         return sbox(x0 + dx, y0 + dy, x1 + dx, y1 + dy)
 
-    if kind == "point":
+    if kind in DERIVED:
+        g = DERIVED[kind][2](raw_shape(DERIVED[kind][0], pos))
+    elif kind == "multipoint1":
+        g = MultiPoint(P((1, 1)))
+    elif kind == "multiline1":
+        g = MultiLineString([P((0, 1), (4, 1))])
+    elif kind == "multipolygon1":
+        g = MultiPolygon([B(0, 0, 3, 3)])
+    elif kind == "dup-line":
+        g = LineString(P((0, 0), (0, 0), (2, 2), (2, 2), (2, 2), (4, 0)))
+    elif kind == "point":
         g = Point(*P((1, 1))[0])
     elif kind == "multipoint":
         g = MultiPoint(P((0, 0), (1, 1), (2, 2)))
@@ -214,10 +251,17 @@ def raw_shape(kind: str, pos: int) -> BaseGeometry:
 _OBJ: dict = {}
 
 
+def make_geometry(kind, pos, crs_value) -> Geometry:
+    if kind in DERIVED:
+        parent, through_lib, _ = DERIVED[kind]
+        return through_lib(Geometry(raw_shape(parent, pos), crs_value))
+    return Geometry(raw_shape(kind, pos), crs_value)
+
+
 def geom_operand(kind, pos, tag) -> Geometry:
     k = ("g", kind, pos, tag)
     if k not in _OBJ:
-        _OBJ[k] = Geometry(raw_shape(kind, pos), tagv(tag))
+        _OBJ[k] = make_geometry(kind, pos, tagv(tag))
     return _OBJ[k]
 
 
@@ -653,7 +697,7 @@ def ref_untagged(op, container, kinds):
     if k not in _UNTAGGED:
         fam = OPS[op]["family"]
         if fam == "Geometry":
-            ops_ = [Geometry(raw_shape(kd, i), None) for i, kd in enumerate(kinds)]
+            ops_ = [make_geometry(kd, i, None) for i, kd in enumerate(kinds)]
         elif fam == "BoundingBox":
             ops_ = [BoundingBox(*BB_KINDS[kd], crs=None) for kd in kinds]
         else:
@@ -865,7 +909,7 @@ def gen_nonepsg():
 
 def _build(fam, kind, pos, value):
     if fam == "Geometry":
-        return Geometry(raw_shape(kind, pos), value)
+        return make_geometry(kind, pos, value)
     if fam == "BoundingBox":
         return BoundingBox(*BB_KINDS[kind], crs=value)
     return GeoBox(GB_KINDS[kind][:2], gb_affine(kind), value)
@@ -897,6 +941,415 @@ def run_nonepsg(case):
     slots = "+".join(sorted({"-" if o.crs is None else str(getattr(o.crs, "_epsg", "?")) for o in operands}))
     r = judge(op, cont, kinds, tags, operands=operands)
     r.outcome = f"nonepsg:{r.outcome}:epsg-slots={slots}"  # 0 = not looked up, None = looked up: no code
+    return r
+
+
+# ---- more geometry kinds: single-part Multi*, repeated vertices, rings / parts derived through the library ---
+def gen_kinds2(tier):
+    full = tier != "quick"
+    tags = tag_pairs() if full else [(a, b) for a in R_TAGS for b in R_TAGS]
+    allk = GEOM_KINDS + GEOM_KINDS2
+
+    def gen():
+        for binary in (True, False):
+            for op in ops_of("Geometry", binary):
+                for cont in (containers(op) if not binary else ("list",)):
+                    for ka in allk:
+                        for kb in allk:
+                            if ka in GEOM_KINDS and kb in GEOM_KINDS:
+                                continue  # both old kinds: the geometry-binary / geometry-nary slices
+                            for tt in tags:
+                                yield (op, cont, (ka, kb), tt)
+    return gen
+
+
+# ---- streams of four: the odd one (incl. the CRS-less one) first, in the middle, last -----------------------
+KINDS4 = {"Geometry": (("polygon", "polyhole", "multipolygon", "line"), ("ring", "empty", "point", "collection")),
+          "BoundingBox": (("A", "over", "apart", "inside"),),
+          "GeoBox": (("base", "shift", "inside", "far"), ("far", "base", "upleft", "shift"))}
+
+
+def tag_quads(alphabet=TAGS):
+    out, seen = [], set()
+    for base in alphabet:
+        for odd in alphabet:
+            for pos in range(4):
+                t = [base] * 4
+                t[pos] = odd
+                if tuple(t) not in seen:
+                    seen.add(tuple(t))
+                    out.append(tuple(t))
+    return out
+
+
+def gen_nary4(tier):
+    def gen():
+        quads = tag_quads()
+        two_odd = [(a, b, a, b) for a in R_TAGS for b in R_TAGS if a != b] + [(a, a, b, b) for a in R_TAGS for b in R_TAGS if a != b]
+        for fam in ("Geometry", "BoundingBox", "GeoBox"):
+            for op in ops_of(fam, False):
+                for cont in containers(op):
+                    for kk in KINDS4[fam][: (1 if tier == "quick" else 2)]:
+                        for tt in quads + two_odd:
+                            yield (op, cont, kk, tt)
+    return gen
+
+
+# ---- histories: an earlier call with the same coordinates, lazy properties read first ---------------------------
+WARM_KINDS = {"Geometry": ("polygon", "polyhole"), "BoundingBox": ("A", "over"), "GeoBox": ("base", "shift")}
+
+
+def gen_warm():
+    pairs = [(a, b) for a in R_TAGS for b in R_TAGS]
+    for op in sorted(OPS):
+        for wt in pairs:
+            for tt in pairs:
+                yield (op, wt, tt, 0)
+        for wt in (("EPSG:4326", "EPSG:4326"), ("proj:A", "proj:A"), ("EPSG:4326", "EPSG:3857")):
+            for tt in pairs:
+                yield (op, wt, tt, 1)  # lazy properties of the operands are read before the call
+
+
+def touch_lazy(o):
+    """Read the lazily computed / derived views of an operand (answers are discarded)."""
+    names = {"Geometry": ("boundingbox", "exterior", "centroid", "json", "wkt"),
+             "BoundingBox": ("polygon", "points", "aoi"),
+             "GeoBox": ("extent", "boundingbox", "geographic_extent", "resolution", "alignment", "coordinates")}[family_of(type(o))]
+    for n in names:
+        capture(lambda n=n: getattr(o, n))
+    if o.crs is not None:
+        capture(lambda: o.crs.epsg)
+        if isinstance(o, GeoBoxBase):
+            capture(lambda: o.footprint("EPSG:4326"))
+    capture(lambda: hash(o))
+
+
+def run_warm(case):
+    op, wt, tt, touch = case
+    if op not in OPS:
+        return R(outcome="operation-absent-from-this-tree", nontrivial=False)
+    fam = OPS[op]["family"]
+    kinds = WARM_KINDS[fam]
+    warm = [_build(fam, k, i, tagv(t)) for i, (k, t) in enumerate(zip(kinds, wt))]
+    w_st, _ = capture_lib(lambda: invoke(OPS[op], warm, "list"))
+    # same coordinates / affines, tags of the test; an operand whose tag did not change IS the earlier instance
+    operands = [warm[i] if tt[i] == wt[i] else _build(fam, k, i, tagv(tt[i])) for i, k in enumerate(kinds)]
+    if touch:
+        for o in operands:
+            touch_lazy(o)
+    r = judge(op, "list", kinds, tt, operands=operands)
+    r.outcome = f"warm[{'ok' if w_st == 'ok' else 'raised'}{',touched' if touch else ''}]:{r.outcome}"
+    for f in r.fails:
+        f.key = f"after-{'same-crs-call' if len({tag_class(t) for t in wt}) == 1 else 'refused-call'}" \
+                f"{'+lazy-read' if touch else ''}:" + f.key
+        f.msg += f" (earlier call on the same coordinates with tags {wt}{'; lazy properties read first' if touch else ''})"
+    return r
+
+
+# ---- entry points of one operation must answer alike ---------------------------------------------------------
+ALIASES = (
+    ("Geometry.__and__", "Geometry.intersection"), ("Geometry.__or__", "Geometry.union"),
+    ("Geometry.__xor__", "Geometry.symmetric_difference"), ("Geometry.__sub__", "Geometry.difference"),
+    ("BoundingBox.__and__", "geom.bbox_intersection"), ("BoundingBox.__or__", "geom.bbox_union"),
+    ("GeoBox.__and__", "geobox.geobox_intersection_conservative"), ("GeoBox.__or__", "geobox.geobox_union_conservative"),
+)
+
+
+def gen_alias():
+    for a, b in ALIASES:
+        fam = EXPLICIT[a]["family"]
+        for kk in NE_KINDS2[fam]:
+            for ta in SUB_TAGS:
+                for tb in SUB_TAGS:
+                    yield (a, b, kk, (ta, tb))
+
+
+def run_alias(case):
+    a, b, kinds, tags = case
+    if a not in OPS or b not in OPS:
+        return R(outcome="operation-absent-from-this-tree", nontrivial=False)
+    fam = OPS[a]["family"]
+    obs = []
+    for op in (a, b):
+        operands = [stateful_operand(fam, k, i, t) for i, (k, t) in enumerate(zip(kinds, tags))]
+        st, v = capture_lib(lambda op=op, operands=operands: invoke(OPS[op], operands, "list"))
+        obs.append((_obs(st, v), tuple(crs_class_of(o.crs) for o in tagged_objects(v)) if st == "ok" else ()))
+    r = R(outcome=f"alias:{fam}:{relation(tags)}:{obs[0][0][0]}")
+    if obs[0] != obs[1]:
+        def sh(o):
+            return o[0][1].__name__ if o[0][0] == "exc" else f"{show_plain(o[0][1])} crs classes {o[1]}"
+        r.fail(f"entry-points-differ:{a}~{b}:{relation(tags)}",
+               f"{a} and {b} on ({', '.join(f'{k}@{t}' for k, t in zip(kinds, tags))}): {sh(obs[0])}  vs  {sh(obs[1])}")
+    return r
+
+
+# ---- many live CRS objects (thorough) ----------------------------------------------------------------------
+_CROWD: list = []
+CROWD_CODES = tuple(range(32601, 32661)) + tuple(range(32701, 32761)) + tuple(range(26901, 26924))
+
+
+def reset_crowded():
+    reset()
+    _CROWD[:] = [CRS(f"EPSG:{c}") for c in CROWD_CODES] + [CRS(c) for c in CROWD_CODES[:20]]
+    for c in _CROWD[::7]:
+        _ = c.epsg
+
+
+def gen_crowded():
+    for op in sorted(OPS):
+        for ta in SUB_TAGS:
+            for tb in SUB_TAGS:
+                yield (op, "list", WARM_KINDS[OPS[op]["family"]], (ta, tb))
+
+
+def run_crowded(case):
+    r = run_nonepsg(case)
+    r.outcome = f"crowded({len(_CROWD)}):" + r.outcome
+    return r
+
+
+# ---- converting operations: the other operand is in ANOTHER CRS and must be reprojected, never mixed ------------
+# A 64x64 px grid of 100 m pixels, 4x4 tiles of 16 px. The numbers are valid coordinates in every projected CRS
+# used for the grid. The query region sits inside tile (row 1, column 2), a quarter pixel off the pixel lattice, at
+# least 4 px from every tile edge: every discrete answer (tiles, pixel-rounded boxes, burnt masks) is then stable
+# against reprojection round-off and the (centimetre-size) curvature of the region's edges.
+CV_X0, CV_Y1, CV_RES, CV_N, CV_TILE = 300000.0, 206400.0, 100.0, 64, 16
+CV_GRID_TAGS = ("EPSG:32633", "wkt2:32633", "EPSG:3857", "proj:A", "proj:A+e", "wkt2:A", "proj:B", "stale:32633")
+CV_Q_TAGS = ("EPSG:4326", "wkt2:4326", "int:4326", "json:4326", "EPSG:3857", "wkt2:3857", "EPSG:32633", "wkt2:32633",
+             "pyproj:32633", "proj:A", "proj:A+e", "wkt2:A", "proj:B", "proj:B+e", "stale:32633", "stale:32633+e")
+CV_PIX = {"poly": ((36.25, 20.25), (36.25, 27.75), (43.75, 27.75), (43.75, 20.25)),
+          "line": ((36.25, 20.25), (43.75, 26.25)),  # crosses no pixel corner and no pixel centre
+          "point": ((40.25, 24.25),)}
+CV_OPS = ("GeoboxTiles.tiles", "GeoboxTiles.tiles[bbox]", "GeoboxTiles.range_from_bbox", "GeoBox.enclosing",
+          "GeoBox.enclosing[bbox]", "GeoBox.project", "GeoBox.from_geopolygon[crs=]", "GridSpec.tiles_from_geopolygon",
+          "xr.crop[apply_mask=False]", "xr.crop", "xr.crop[fn]", "xr.mask", "xr.mask[invert]", "xr.mask[all_touched=False]",
+          "xr.mask[fn]", "xr.rasterize")
+
+
+def _ref_crs(cls):
+    return pyproj.CRS.from_epsg(cls) if isinstance(cls, int) else _CUSTOM_REF[cls]
+
+
+_CVQ: dict = {}
+
+
+def cv_coords(gclass, uclass, kind):
+    """Vertices of the query region expressed in class `uclass` (fresh pyproj transformer; never odc code)."""
+    k = (gclass, uclass, kind)
+    if k not in _CVQ:
+        xy = [(CV_X0 + c * CV_RES, CV_Y1 - r * CV_RES) for c, r in CV_PIX[kind]]
+        if gclass != uclass:
+            tr = pyproj.Transformer.from_crs(_ref_crs(gclass), _ref_crs(uclass), always_xy=True)
+            xy = [tr.transform(x, y) for x, y in xy]
+        _CVQ[k] = xy
+    return _CVQ[k]
+
+
+def cv_shape(xy, kind):
+    return {"poly": Polygon, "line": LineString, "point": lambda p: Point(*p[0])}[kind](xy)
+
+
+def cv_crs_value(tag, slot):
+    """crs value for a tag; '+e': a CRS object (one per role) on which .epsg / to_epsg() is evaluated now."""
+    base = tag.split("+")[0]
+    if not tag.endswith("+e"):
+        return tagv(base)
+    k = ("cv-ecrs", tag, slot)
+    if k not in _OBJ:
+        _OBJ[k] = CRS(tagv(base))
+    _ = _OBJ[k].epsg
+    _ = _OBJ[k].to_epsg()
+    return _OBJ[k]
+
+
+def cv_world(gtag):
+    """(GeoBox, GeoboxTiles, GridSpec, DataArray of ones) for a grid tag; kept per shard: many operations run on the
+    one instance in sequence."""
+    k = ("cv-world", gtag)
+    if k not in _OBJ:
+        from odc.geo.geobox import GeoboxTiles  # pylint: disable=import-outside-toplevel
+        from odc.geo.gridspec import GridSpec  # pylint: disable=import-outside-toplevel
+        from odc.geo.xr import xr_zeros  # pylint: disable=import-outside-toplevel
+
+        crs = cv_crs_value(gtag, "grid")
+        gbox = GeoBox((CV_N, CV_N), Affine(CV_RES, 0, CV_X0, 0, -CV_RES, CV_Y1), crs)
+        _OBJ[k] = (gbox, GeoboxTiles(gbox, (CV_TILE, CV_TILE)), GridSpec(gbox.crs, (CV_TILE, CV_TILE), CV_RES),
+                   xr_zeros(gbox, dtype="float32") + 1)
+    elif gtag.endswith("+e"):
+        cv_crs_value(gtag, "grid")
+    return _OBJ[k]
+
+
+def _nanpattern(xx):
+    a = np.asarray(xx.values if hasattr(xx, "values") else xx)
+    gb = xx.odc.geobox
+    return ("raster", tuple(gb.shape), tuple(gb.affine)[:6], np.packbits(np.isfinite(a) & (a != 0)).tobytes())
+
+
+def cv_call(op, world, q, bb):
+    """-> (comparable answer, list of CRS-tagged results)"""
+    # pylint: disable=import-outside-toplevel,too-many-return-statements
+    gbox, tiles, gs, xx = world
+    if op == "GeoboxTiles.tiles":
+        return ("tiles", tuple(tiles.tiles(q))), []
+    if op == "GeoboxTiles.tiles[bbox]":
+        return ("tiles", tuple(tiles.tiles(bb))), []
+    if op == "GeoboxTiles.range_from_bbox":
+        yy, xx_ = tiles.range_from_bbox(bb)
+        return ("tiles", tuple(itertools.product(yy, xx_))), []
+    if op == "GeoBox.enclosing":
+        g = gbox.enclosing(q)
+        return plain(g), [g]
+    if op == "GeoBox.enclosing[bbox]":
+        g = gbox.enclosing(bb)
+        return plain(g), [g]
+    if op == "GeoBox.project":
+        g = gbox.project(q)
+        b = g.geom.bounds
+        return ("pixel-bounds", tuple(round(v * 256) / 256 for v in b)), [g]  # 1/256 px; region is on the 1/4 px lattice
+    if op == "GeoBox.from_geopolygon[crs=]":
+        g = GeoBox.from_geopolygon(q, resolution=CV_RES, crs=gbox.crs)
+        return plain(g), [g]
+    if op == "GridSpec.tiles_from_geopolygon":
+        out = list(gs.tiles_from_geopolygon(q))
+        return ("tiles", tuple(tuple(i) for i, _ in out)), [g for _, g in out]
+    from odc.geo import xr as oxr
+    if op == "xr.crop[apply_mask=False]":
+        return _nanpattern(xx.odc.crop(q, apply_mask=False)), []
+    if op == "xr.crop":
+        return _nanpattern(xx.odc.crop(q)), []
+    if op == "xr.crop[fn]":
+        return _nanpattern(oxr.crop(xx, q)), []
+    if op == "xr.mask":
+        return _nanpattern(xx.odc.mask(q)), []
+    if op == "xr.mask[invert]":
+        return _nanpattern(xx.odc.mask(q, invert=True)), []
+    if op == "xr.mask[all_touched=False]":
+        return _nanpattern(xx.odc.mask(q, all_touched=False)), []
+    if op == "xr.mask[fn]":
+        return _nanpattern(oxr.mask(xx, q)), []
+    if op == "xr.rasterize":
+        return _nanpattern(oxr.rasterize(q, gbox)), []
+    raise ValueError(op)
+
+
+CV_EXPECT = {"GeoboxTiles.tiles": ("tiles", ((1, 2),))}
+CV_BBOX_OPS = ("GeoboxTiles.tiles[bbox]", "GeoboxTiles.range_from_bbox", "GeoBox.enclosing[bbox]")
+
+
+def cv_bbox_expect(op, gcls, ucls, kind):
+    """Independent answer for a BoundingBox query given in class `ucls`: its outline (a box in `ucls`, an oblique,
+    possibly much larger quadrilateral on the grid) is carried to grid pixels with a fresh pyproj transformer.
+    None: the answer hinges on round-off (an edge within 1e-3 px of a decision boundary) - not judged."""
+    xy = cv_coords(gcls, ucls, kind)
+    x0, x1 = min(p[0] for p in xy), max(p[0] for p in xy)
+    y0, y1 = min(p[1] for p in xy), max(p[1] for p in xy)
+    if x0 == x1 or y0 == y1:
+        return None  # degenerate box (point region)
+    tr = pyproj.Transformer.from_crs(_ref_crs(ucls), _ref_crs(gcls), always_xy=True) if gcls != ucls else None
+
+    def to_pix(pts):
+        if tr is not None:
+            pts = [tr.transform(x, y) for x, y in pts]
+        return [((x - CV_X0) / CV_RES, (CV_Y1 - y) / CV_RES) for x, y in pts]
+
+    corners = [(x0, y0), (x0, y1), (x1, y1), (x1, y0)]
+    eps = 1e-3
+    if op == "GeoBox.enclosing[bbox]":
+        n = 128  # the library adds points along the edges before reprojecting; so does the reference
+        ring = [(ax + (bx - ax) * i / n, ay + (by - ay) * i / n)
+                for (ax, ay), (bx, by) in zip(corners, corners[1:] + corners[:1]) for i in range(n)]
+        pix = to_pix(ring)
+        lo_c, hi_c = min(p[0] for p in pix), max(p[0] for p in pix)
+        lo_r, hi_r = min(p[1] for p in pix), max(p[1] for p in pix)
+        if any(abs(v - round(v)) < eps for v in (lo_c, hi_c, lo_r, hi_r)):
+            return None
+        tx, ty = math.floor(lo_c), math.floor(lo_r)
+        nx, ny = max(1, math.ceil(hi_c) - tx), max(1, math.ceil(hi_r) - ty)
+        return ("geobox", (ny, nx), (CV_RES, 0.0, CV_X0 + tx * CV_RES, 0.0, -CV_RES, CV_Y1 - ty * CV_RES))
+    pix = to_pix(corners)
+    lo_c, hi_c = min(p[0] for p in pix), max(p[0] for p in pix)
+    lo_r, hi_r = min(p[1] for p in pix), max(p[1] for p in pix)
+    nt = CV_N // CV_TILE
+    if op == "GeoboxTiles.range_from_bbox":
+        if any(abs(v / CV_TILE - round(v / CV_TILE)) < eps for v in (lo_c, hi_c, lo_r, hi_r)):
+            return None
+
+        def rng(lo, hi):
+            a = min(max(math.floor(lo), 0), CV_N - 1) // CV_TILE
+            b = (min(max(math.ceil(hi), 1), CV_N) - 1) // CV_TILE
+            return range(a, b + 1)
+        return ("tiles", tuple(itertools.product(rng(lo_r, hi_r), rng(lo_c, hi_c))))
+    quad = Polygon(pix)
+    answers = []
+    for q in (quad.buffer(eps), quad.buffer(-eps)):
+        answers.append(tuple((r, c) for r in range(nt) for c in range(nt)
+                             if not q.disjoint(sbox(c * CV_TILE, r * CV_TILE, (c + 1) * CV_TILE, (r + 1) * CV_TILE))))
+    return ("tiles", answers[0]) if answers[0] == answers[1] else None
+CV_SAME_AS = {"xr.crop[fn]": "xr.crop", "xr.mask[fn]": "xr.mask"}  # function and accessor entry points
+
+
+def gen_convert():
+    for op in CV_OPS:
+        for gt in CV_GRID_TAGS:
+            for qt in CV_Q_TAGS:
+                for kind in CV_PIX:
+                    yield (op, gt, qt, kind)
+
+
+def run_convert(case):
+    op, gt, qt, kind = case
+    gcls, qcls = tag_class(gt), tag_class(qt)
+    world = cv_world(gt)
+    gbox = world[0]
+
+    def query(cls, crs_value):
+        xy = cv_coords(gcls, cls, kind)
+        xs, ys = [p[0] for p in xy], [p[1] for p in xy]
+        return Geometry(cv_shape(xy, kind), crs_value), BoundingBox(min(xs), min(ys), max(xs), max(ys), crs_value)
+
+    q, bb = query(qcls, cv_crs_value(qt, "query"))
+    qn, bbn = query(gcls, gbox.crs)  # the same region expressed in the grid's own CRS
+    rel = "same-crs" if gcls == qcls else "other-crs"
+    what = f"{op} on a grid in {gt} with a {kind} region given in {qt}"
+    st, got = capture_lib(lambda: cv_call(op, world, q, bb))
+    stn, ref = capture_lib(lambda: cv_call(CV_SAME_AS.get(op, op), world, qn, bbn))
+    r = R(outcome=f"convert:{op.split('[')[0]}:{rel}:{'raised-' + type(got).__name__ if st == 'exc' else 'answered'}")
+    key = f"{op}:grid-{cls_label(gcls)}:region-{cls_label(qcls)}"
+    if stn == "exc":
+        r.nontrivial = False  # not even defined for the region in the grid's own CRS
+        if not (st == "exc" and type(got) is type(ref)):
+            r.fail(f"{key}:answers-but-native-raises", f"{what}: {show(got)}; with the region in the grid's CRS: {type(ref).__name__}: {ref}")
+        return r
+    if st == "exc":
+        if gcls == qcls:  # the same CRS in another spelling is refused
+            r.fail(f"{key}:raised-{type(got).__name__}",
+                   f"{what}: raised {type(got).__name__}: {got}; the same region given with the grid's own CRS object is answered")
+        else:  # refusing is not mixing: an observation (degenerate boxes cannot be reprojected by the library)
+            r.nontrivial = False
+            r.counts = {f"observation:convert-raised-{type(got).__name__}:{op}:{kind}": 1}
+        return r
+    (ans, tagged), (ans_n, _) = got, ref
+    if op in CV_BBOX_OPS and gcls != qcls:
+        # a box in another CRS is another (larger, oblique) region on the grid: judged by the independent reference
+        want = cv_bbox_expect(op, gcls, qcls, kind)
+        if want is None:
+            r.nontrivial = False
+            r.outcome += ":not-judged(round-off)"
+        elif ans != want:
+            r.fail(f"{key}:differs-from-reference",
+                   f"{what}: answer {show(ans)}; the box carried to the grid with a fresh pyproj transformer gives {show(want)}")
+    elif ans != ans_n:
+        r.fail(f"{key}:differs-from-native",
+               f"{what}: answer {show(ans)} differs from the answer for the same region given in the grid's own CRS {show(ans_n)} "
+               f"(region vertices in {qt}: {cv_coords(gcls, qcls, kind)})")
+    if op in CV_EXPECT and kind == "poly" and ans != CV_EXPECT[op]:
+        r.fail(f"{key}:unexpected", f"{what}: answer {show(ans)}, expected {CV_EXPECT[op]}")
+    want_c = 0 if op == "GeoBox.project" else gcls
+    for o in tagged:
+        if crs_class_of(o.crs) != want_c:
+            r.fail(f"{key}:result-crs:{_have_label(crs_class_of(o.crs))}",
+                   f"{what}: result carries crs {o.crs!r}, expected class {cls_label(want_c)}")
     return r
 
 
@@ -972,6 +1425,26 @@ def slices(tier):
                  "every operation x a few kind tuples x all ordered pairs / odd-one-out triples of tags incl. two custom "
                  "projections without EPSG code (proj4, WKT2, pyproj spellings), each fresh and after .epsg/to_epsg() "
                  "was evaluated on the operand's CRS object", setup=reset),
+        e1.Slice("geometry-kinds2", gen_kinds2(tier), run_case,
+                 "Geometry operations (binary and collections of 2) where at least one operand is a single-part Multi*, a "
+                 "line with repeated vertices, or a ring / part derived through .exterior / .interiors / .geoms; quick: "
+                 "reduced tag alphabet, thorough: all tags", setup=reset),
+        e1.Slice("nary4", gen_nary4(tier), run_case,
+                 "collection operations on streams of 4: odd tag (incl. the CRS-less one) at each position, and two-odd patterns",
+                 setup=reset),
+        e1.Slice("warm", gen_warm, run_warm,
+                 "every operation after an earlier call on operands with the same coordinates/affines (accepted or refused), "
+                 "re-using unchanged operand instances, with and without reading lazy properties first", setup=reset),
+        e1.Slice("entry-points", gen_alias, run_alias,
+                 "operator / method / function spellings of one operation answer alike (value, result CRS, exception)", setup=reset),
+        e1.Slice("convert", gen_convert, run_convert,
+                 "converting operations (GeoboxTiles.tiles / range_from_bbox, GeoBox.enclosing / project / from_geopolygon(crs=), "
+                 "GridSpec.tiles_from_geopolygon, xarray crop / mask / rasterize through accessor and function) with the region "
+                 "given in another CRS or another spelling: same answer as for the region in the grid's own CRS", setup=reset),
+    ] + ([
+        e1.Slice("crowded", gen_crowded, run_crowded,
+                 "every operation x spelled tag pairs while 163 other CRS objects are alive", setup=reset_crowded),
+    ] if tier != "quick" else []) + [
         e1.Slice("fresh-cache", gen_fresh, run_fresh,
                  "representative operations on every ordered tag pair, built in both orders (and with the caches emptied "
                  "between the two operands) on emptied CRS caches, after nothing or after one earlier construction from "
